@@ -40,6 +40,7 @@ type CEnv struct {
 	facts     []Term
 	inOld     bool
 	closures  map[string]Val
+	inTrigger bool
 	fuel      string // bound fuel variable in scope ("" = default fuel constant)
 	fuelUsed  *bool
 	seqBinders bool  // lemma context: bound variables of slice type are sequences
@@ -237,40 +238,51 @@ func (env *CEnv) derefCell(ref Term, elem types.Type) CVal {
 	return CVal{T: Select(env.cur.H(compCell(so), ArrSort(SInt, so)), ref), Type: elem}
 }
 
-// localAlloc resolves a local variable name to its (non-heap) Alloc, using
-// go/types scopes at the loop position to disambiguate shadowed names.
+// localAlloc resolves a local variable name to its (non-heap) Alloc, looking
+// from the innermost (possibly inlined) frame outwards and using go/types
+// scopes at the loop position to disambiguate shadowed names.
 func (env *CEnv) localAlloc(name string) *ssa.Alloc {
-	fr := env.frame
-	var cands []*ssa.Alloc
-	for _, a := range fr.fn.Locals {
-		if a.Comment == name && !a.Heap {
-			if _, ok := fr.locals[a]; ok {
-				cands = append(cands, a)
+	for fr := env.frame; fr != nil; fr = fr.parent {
+		var cands []*ssa.Alloc
+		for _, a := range fr.fn.Locals {
+			if a.Comment == name && !a.Heap {
+				if _, ok := fr.locals[a]; ok {
+					cands = append(cands, a)
+				}
 			}
 		}
-	}
-	switch len(cands) {
-	case 0:
-		return nil
-	case 1:
-		return cands[0]
-	}
-	// choose the declaration visible at the loop header
-	if env.loopBlock != nil {
-		if a := env.run.eng.resolveShadowed(fr.fn, env.loopBlock, name, cands); a != nil {
-			return a
+		switch len(cands) {
+		case 0:
+			continue
+		case 1:
+			return cands[0]
 		}
+		if env.loopBlock != nil && fr == env.frame {
+			if a := env.run.eng.resolveShadowed(fr.fn, env.loopBlock, name, cands); a != nil {
+				return a
+			}
+		}
+		return cands[len(cands)-1]
 	}
-	return cands[len(cands)-1]
+	return nil
 }
 
 func (env *CEnv) heapLocal(name string) (CVal, bool) {
-	fr := env.frame
-	for _, blk := range fr.fn.Blocks {
-		for _, in := range blk.Instrs {
-			if a, ok := in.(*ssa.Alloc); ok && a.Heap && a.Comment == name {
-				if ref, ok := fr.regs[a].(Term); ok {
-					return env.derefCell(ref, a.Type().(*types.Pointer).Elem()), true
+	for fr := env.frame; fr != nil; fr = fr.parent {
+		for _, blk := range fr.fn.Blocks {
+			for _, in := range blk.Instrs {
+				if a, ok := in.(*ssa.Alloc); ok && a.Heap && a.Comment == name {
+					if ref, ok := fr.regs[a].(Term); ok {
+						return env.derefCell(ref, a.Type().(*types.Pointer).Elem()), true
+					}
+				}
+			}
+		}
+		// captured variables of an inlined closure
+		for _, fv := range fr.fn.FreeVars {
+			if fv.Name() == name {
+				if ref, ok := fr.regs[fv].(Term); ok {
+					return env.derefCell(ref, fv.Type().(*types.Pointer).Elem()), true
 				}
 			}
 		}
@@ -453,6 +465,9 @@ func (env *CEnv) indexOf(v, i CVal) CVal {
 		mc := env.run.mapComps(u)
 		dom := Select(mapDom(env.cur, mc, v.T), i.T)
 		val := Select(mapVal(env.cur, mc, v.T), i.T)
+		if env.inTrigger {
+			return CVal{T: val, Type: u.Elem()} // no ite in patterns
+		}
 		return CVal{T: Ite(dom, val, reg.Zero(mc.V)), Type: u.Elem()}
 	case *types.Array:
 		return CVal{T: Select(v.T, i.T), Type: u.Elem()}
@@ -491,9 +506,11 @@ func (env *CEnv) quant(q *EQuant) CVal {
 	var pats []string
 	for _, trig := range q.Triggers {
 		var ts []string
+		n.inTrigger = true
 		for _, te := range trig {
 			ts = append(ts, n.eval(te).T.S)
 		}
+		n.inTrigger = false
 		n.takeFacts()
 		pats = append(pats, ":pattern ("+strings.Join(ts, " ")+")")
 	}
